@@ -37,6 +37,8 @@ Refs(n) == IF Derived > 0 THEN TempRefs(n) \cup {[k |-> "p", i |-> 0], [k |-> "c
            ELSE InputRefs \cup ConstRefs \cup TempRefs(n)
 
 NOut(op, n) == IF op = "ToBinary" THEN n
+               ELSE IF op = "GDecoder3" THEN 3
+               ELSE IF op = "GPartition" THEN 2
                ELSE IF op \in {"AssertIsEqual", "AssertIsDifferent", "AssertIsBoolean", "AssertIsCrumb", "AssertIsLessOrEqual", "PlonkGate"} THEN 0
                ELSE 1
 
@@ -55,7 +57,8 @@ Init == /\ prog = (IF Derived = 1 THEN DerivedPrefix ELSE IF Derived = 2 THEN Bo
 ChooseOp ==
   /\ Len(prog) < MaxLen /\ cur = NoCur
   /\ \E op \in OpSet :
-       \E w \in (IF op = "ToBinary" THEN {1, 3, FieldBits, FieldBits + 1} ELSE IF op \in {"PlonkExpr", "PlonkGate"} THEN {1, 2, 3} ELSE {0}) :
+       \E w \in (IF op = "ToBinary" THEN {1, 3, FieldBits, FieldBits + 1} ELSE IF op \in {"PlonkExpr", "PlonkGate"} THEN {1, 2, 3}
+                  ELSE IF op = "GPartition" THEN {1, 3, 5} ELSE {0}) :
          cur' = [op |-> op, a |-> <<>>, n |-> w]
   /\ UNCHANGED <<prog, nt, done>>
 
@@ -64,10 +67,19 @@ Commit(ins) ==
   /\ nt' = nt + NOut(ins.op, ins.n)
   /\ cur' = NoCur
 
+\* data inputs of the multiplexers / map: fixed patterns (the selector ranges over every reference)
+PatRefs == <<[k |-> "p", i |-> 0], [k |-> "p", i |-> 1], [k |-> "s", i |-> 0], [k |-> "c", i |-> 2], [k |-> "c", i |-> 46]>>
+MuxPatterns(nin) == { [j \in 1..nin |-> PatRefs[j]],
+                      [j \in 1..nin |-> PatRefs[((j + 1) % 5) + 1]],
+                      [j \in 1..nin |-> IF j % 2 = 1 THEN [k |-> "p", i |-> 0] ELSE [k |-> "c", i |-> 1]] }
+IsMux(op) == op \in {"GMux2", "GMux3", "GMux4", "GMux5", "GMap3"}
+
 ChooseOperand ==
   /\ cur # NoCur
   /\ IF cur.op = "Lookup2" /\ Len(cur.a) = 2
      THEN \E pat \in L2Patterns : Commit([cur EXCEPT !.a = cur.a \o pat])
+     ELSE IF IsMux(cur.op) /\ Len(cur.a) = 1 /\ Derived = 0
+     THEN \E pat \in MuxPatterns(Arity(cur.op) - 1) : Commit([cur EXCEPT !.a = cur.a \o pat])
      ELSE \E r \in Refs(nt) :
             LET c2 == [cur EXCEPT !.a = Append(cur.a, r)]
             IN IF Len(c2.a) = Arity(c2.op) THEN Commit(c2)
